@@ -139,6 +139,7 @@ type State struct {
 	alloc  Term
 	seen   map[ssa.Value]Term // ghost: keys already produced by a map range; position of a string range
 	dom0   map[ssa.Value]Term
+	probe    *bool // set when a heap is read (used to detect heap-dependent address expressions)
 	havocGen int // generation of whole-heap havocs: heaps first used later get a generation-specific constant
 }
 
@@ -157,6 +158,9 @@ func (s *State) clone() *State {
 }
 
 func (s *State) heap(name, sort string) Term {
+	if s.probe != nil {
+		*s.probe = true
+	}
 	if t, ok := s.heaps[name]; ok {
 		return t
 	}
@@ -170,6 +174,12 @@ func (s *State) heap(name, sort string) Term {
 
 func (s *State) setHeap(name, sort string, t Term) {
 	s.u.heapInit(name, sort)
+	if strings.HasPrefix(t, "(") {
+		// name every heap version: keeps the query text linear in the size of the function
+		c := s.u.D.Fresh(name, sort)
+		s.u.Fact(eq(c, t))
+		t = c
+	}
 	s.heaps[name] = t
 }
 
